@@ -1,19 +1,5 @@
-// ===== shim/pcenv.rs : abstract environment of the trait-default batch methods of lib.rs (trusted) =====
-// the scheme's own types, its per-point `check` as a deterministic function, and the BTreeMap/BTreeSet operations used there
-// ---- environment (abstract): the scheme's own types and its per-point `check` ----
-#[verifier::external_body] pub struct VK { _x: u8 }
-#[verifier::external_body] pub struct Comm { _x: u8 }
-#[verifier::external_body] pub struct Pt { _x: u8 }
-#[verifier::external_body] pub struct Proof { _x: u8 }
-pub struct BatchProof { pub v: Vec<Proof> }
-impl Pt { #[verifier::external_body] pub fn clone(&self) -> (r: Pt) ensures r == *self { unimplemented!() } }
-// `proof.clone().into()` : BatchProof -> Vec<Proof>
-#[verifier::external_body] pub fn batch_proof_to_vec(p: &BatchProof) -> (r: Vec<Proof>) ensures r@ == p.v@ { unimplemented!() }
-// the decision of the scheme's per-point verifier and the sponge state it leaves: deterministic functions of its inputs
-// (the verifier's own RNG does not enter: the schemes that use this default method ignore it)
-pub enum Dec { Accept, Reject, Error }
-pub uninterp spec fn chk_dec(vk: &VK, comms: Seq<&LabeledCommitment<Comm>>, point: Pt, values: Seq<Fr>, proof: Proof, s: SS) -> Dec;
-pub uninterp spec fn chk_sponge(vk: &VK, comms: Seq<&LabeledCommitment<Comm>>, point: Pt, values: Seq<Fr>, proof: Proof, s: SS) -> SS;
+// ===== shim/pcenv.rs : BTreeMap/BTreeSet operations of the batch methods (lib.rs, marlin/mod.rs), by their observable contracts (trusted) =====
+// needs types `Comm` (commitment) and `Pt` (point) from shim/pctypes.rs (abstract scheme) or from the template (concrete scheme)
 // order of the BTree collections on labels: a strict total order (lexicographic on strings), exposed only through sortedness of iteration
 pub uninterp spec fn key_lt(a: String, b: String) -> bool;
 // iteration sequence of a set (its elements, each once)
